@@ -130,6 +130,51 @@ fn probe_locked(post: &Ledger, position: &Pubkey, token_account: &Pubkey, salt: 
         f.put(k, crate::rt::Account::new(crate::world::rent_min(d2.len()), d2, ta.owner));
         encodings.push(("second, empty and unfrozen token account of the position mint", f, k));
     }
+    {
+        // not a token account at all: the frozen account's bytes, thawed, at another address under a program that is not a
+        // token program (a stranger, a look-alike of the token program's id) - the real account keeps the token
+        let mut d = ta.data.to_vec();
+        d[108] = 1;
+        let mut lookalike = ta.owner.to_bytes();
+        lookalike[15] ^= 0x5a;
+        for (n, (label, prog)) in [("thawed look-alike of the token account under a stranger program", crate::world::scratch_key(salt, 8201)), ("thawed look-alike of the token account under a look-alike of the token program id", Pubkey::new_from_array(lookalike))].into_iter().enumerate() {
+            let mut f = post.clone();
+            let k = crate::world::scratch_key(salt, 8210 + n as u64);
+            f.put(k, crate::rt::Account::new(crate::world::rent_min(d.len()), d.clone(), prog));
+            encodings.push((label, f, k));
+        }
+    }
+    // "a locked position can still add liquidity": each of the three deposit instructions, sent by the holder through the
+    // frozen token account, must go through whenever the very same deposit goes through on a copy where the token account is
+    // merely not frozen
+    {
+        let la = crate::ix::LiqAccounts { pool: keys.clone(), authority: holder, position: *position, position_token_account: *token_account, owner_a: oa, owner_b: ob, ta_lower: arr(p.lower), ta_upper: arr(p.upper) };
+        let small = 1 + (salt % 1000) as u128;
+        let mut deposits: Vec<(&str, crate::rt::Ix)> = vec![("increase_liquidity_by_token_amounts_v2", crate::ix::increase_liquidity_by_token_amounts_v2(&la, 1_000 + (salt % 100_000), 1_000 + (salt % 77_777), decode::MIN_SQRT_PRICE, decode::MAX_SQRT_PRICE))];
+        if keys.prog_a == crate::ix::tok() && keys.prog_b == crate::ix::tok() {
+            deposits.push(("increase_liquidity", crate::ix::increase_liquidity(&la, small, u64::MAX, u64::MAX)));
+        }
+        for (what, ixn) in deposits {
+            let mut frozen_copy = post.clone();
+            let r_frozen = crate::rt::exec_tx_simple(&mut frozen_copy, &crate::rt::Tx { ixs: vec![ixn.clone()] });
+            if r_frozen.ok {
+                cov.probe("locked_position_small_deposit_accepted");
+                continue;
+            }
+            let mut thawed = post.clone();
+            if let Some(a) = thawed.accts.get_mut(token_account) {
+                let mut od = (*a.data).clone();
+                od[108] = 1;
+                a.data = std::rc::Rc::new(od);
+            }
+            let r_thawed = crate::rt::exec_tx_simple(&mut thawed, &crate::rt::Tx { ixs: vec![ixn] });
+            cov.eval(format!("locked_probe|{}|frozen_ok=false|thawed_ok={}", what, r_thawed.ok));
+            if r_thawed.ok {
+                out.push(viol("locked_position_operation_refused", idx, format!("{} is refused ({:?}) on the locked position {} although the same deposit goes through when its token account is not frozen: adding liquidity must stay possible", what, r_frozen.custom(), position)));
+                return;
+            }
+        }
+    }
     // "a locked position can still add liquidity": a small deposit by the holder through the frozen token account must go
     // through whenever the very same deposit goes through on a copy where the token account is merely not frozen
     {
